@@ -3,6 +3,7 @@ CONSTANTS
   N = 3
   LimR = 1
   LimD = 1
+  TB = 0
   MoveOnLast = FALSE
 VIEW View
 INVARIANT Refines
